@@ -87,8 +87,9 @@ Definition wake_nmax (nbuckets : Z) (s : sizes) : conv :=
   if 1 <? nbuckets then spaced_bins s else padded_bins s.
 
 (** ** ElectricField::padBunchProfiles / wakePotential read-back:
-    [_bp_padded + _bucket[b]*_spacing_bins], n cells; the product is uint32 *)
-Definition pad_start (spacing bucket : Z) : Z := wrap32 (bucket * spacing).
+    [_bp_padded + _bucket[b]*_spacing_bins], n cells; [_bucket] holds uint32, [_spacing_bins] is a
+    size_t member (initialised from a uint32 parameter): the product is a 64-bit one *)
+Definition pad_start (spacing bucket : Z) : Z := w64 (bucket * spacing).
 Definition pad_last (n spacing bucket : Z) : Z := pad_start spacing bucket + n - 1.
 Definition pad_index (spacing bucket x : Z) : Z := pad_start spacing bucket + x.
 Definition pad_ok (n nmax spacing : Z) (buckets : list Z) : bool :=
